@@ -4,6 +4,7 @@ import (
 	"bytes"
 	"fmt"
 	"math/rand"
+	"runtime/debug"
 	"strings"
 	"sync"
 	"time"
@@ -71,10 +72,16 @@ func runC02(c *Check, rng *rand.Rand) {
 		)
 	}
 	var wg sync.WaitGroup
+	// at most two configurations at a time: the fake nodes keep every request byte they
+	// received until their environment is closed, which in the thorough tier is gigabytes
+	// per configuration
+	sem := make(chan struct{}, 2)
 	for i, cf := range cfgs {
 		wg.Add(1)
 		go func(i int, cf cfg) {
 			defer wg.Done()
+			sem <- struct{}{}
+			defer func() { <-sem; debug.FreeOSMemory() }()
 			defer func() {
 				if r := recover(); r != nil {
 					if ie, ok := r.(infraErr); ok {
@@ -101,7 +108,7 @@ func c02config(c *Check, seed int64, name string, opt EnvOpt, hs string) {
 	env.Cl.SetHandler(script.Handler)
 	singles := SingleKeyCommands()
 	nreq := c.Pick(6000, 120000)
-	nbig := c.Pick(24, 400)
+	nbig := c.Pick(24, 120)
 	if name != "default" {
 		nreq /= 2
 		nbig /= 3
@@ -470,7 +477,22 @@ func c02slowSmall(c *Check, env *Env, script *Script, seed int64, name string) {
 	time.Sleep(200 * time.Millisecond)
 	env.Barrier()
 	cl.PauseReading(false)
-	ok := cl.WaitReplies(n, 180*time.Second)
+	// progress-based wait: a sanitizer build may need minutes for this backlog; what is
+	// judged is a stream that stops (no new reply for 60 s), not one that is slow
+	ok := false
+	for last, idle := -1, 0; idle < 2; {
+		if ok = cl.WaitReplies(n, 30*time.Second); ok {
+			break
+		}
+		if got := cl.NReplies(); got == last {
+			idle++
+		} else {
+			last, idle = got, 0
+		}
+		if time.Since(c.Start) > 50*time.Minute {
+			break
+		}
+	}
 	s := cl.Snapshot()
 	c.Eval(1)
 	c.Distinct(fmt.Sprintf("%s|slow-reader-small-replies|%d", name, n))
